@@ -1983,7 +1983,8 @@ class C09(HistProp):
                 "address setter from any such state: success means an A record given 4 bytes or an AAAA record given 16, and exactly that "
                 "record's data is replaced (C09_set_ip_on_decompressed). Deletion on a packet as the parser returned it, compressed or not: "
                 "the prologue translates the cursor to the same record of the pointer-free packet, the deletion removes exactly that record "
-                "(C09_delete_on_parsed_packet). Further lemmas: C09_insert_appends (bytes after a successful insert = bytes before with the record spliced at the "
+                "(C09_delete_on_parsed_packet), and the owner-name setter there replaces exactly that record's labels "
+                "(C09_set_name_on_parsed_packet). Further lemmas: C09_insert_appends (bytes after a successful insert = bytes before with the record spliced at the "
                 "end of the section, one count incremented), C09_set_ttl_frame (only 4 bytes change), C09_set_ttl_effect (on a section that reads "
                 "declaratively as records l, after set_rr_ttl t on the k-th cursor the section walk returns the views of l with the k-th TTL "
                 "replaced by t and nothing else changed, PROVIDED no owner name of the section is read through the 4 bytes written; "
